@@ -228,7 +228,37 @@ done:
     int st; int hung = sq_wait_child(pid, 150, &st); SQ.states++; SQ.evaluations++; SQ.transitions += 4;
     if (hung || !WIFEXITED(st) || WEXITSTATUS(st)) { char key[60]; snprintf(key, sizeof key, "n_workers=%d via attribute", nw); sq_found(key, "", "init/run/fini with %d workers failed", nw); }
   }
-  sq_detail("%ld init/fini histories to depth %d + worker counts 1..64; ", hist_cases, depth);
+  /* long histories in one process ("arbitrarily long init/fini histories"): anything that accumulates over cycles shows only here */
+  for (int bind = 0; bind < 2; bind++) {
+    int cycles = bind ? 150 : (depth >= 5 ? 600 : 300);
+    int pfd[2]; if (pipe(pfd)) continue;
+    fflush(NULL);
+    pid_t pid = fork();
+    if (pid == 0) {
+      close(pfd[0]); char m[200] = ""; int bad = 0;
+      for (int i = 0; i < cycles && !bad; i++) {
+	int nw = 1 + i % 3;
+	myth_globalattr_t ga[1]; myth_globalattr_init(ga); myth_globalattr_set_n_workers(ga, nw); myth_globalattr_set_bind_workers(ga, bind);
+	myth_init_ex(ga);
+	int q = myth_get_num_workers(), w = myth_get_worker_num();
+	if (q != nw || w < 0 || w >= q) { bad = 1; snprintf(m, sizeof m, "cycle %d: runs with %d workers (worker_num %d), requested %d", i, q, w, nw); break; }
+	myth_thread_t t = myth_create(nop, (void *)9); void * r = 0; myth_join(t, &r);
+	if (r != (void *)9) { bad = 1; snprintf(m, sizeof m, "cycle %d: create+join delivered %p", i, r); break; }
+	myth_fini();
+      }
+      if (!bad) { int c = count_os_threads(); if (c != 1) { bad = 1; snprintf(m, sizeof m, "%d OS threads remain after %d init/fini cycles", c, cycles); } }
+      if (write(pfd[1], m, strlen(m) + 1) < 0) {}
+      _exit(bad);
+    }
+    close(pfd[1]);
+    int st; int hung = sq_wait_child(pid, 200, &st); char msg[300] = ""; ssize_t k = read(pfd[0], msg, sizeof msg - 1); if (k < 0) k = 0; msg[k] = 0; close(pfd[0]);
+    SQ.states++; SQ.evaluations++; SQ.transitions += 4 * cycles;
+    if (hung || !WIFEXITED(st) || WEXITSTATUS(st)) {
+      char key[100]; snprintf(key, sizeof key, "long history: %d cycles of init_ex(1..3 workers, bind_workers=%d) create+join fini in one process", cycles, bind);
+      sq_found(key, "", "%s", hung ? "the history hangs" : !WIFEXITED(st) ? "the process crashes (memory overwritten by an earlier cycle?)" : msg);
+    }
+  }
+  sq_detail("%ld init/fini histories to depth %d + worker counts 1..64 + two long histories (300/600 and 150 cycles in one process); ", hist_cases, depth);
 }
 
 int main(int argc, char ** argv) {
